@@ -39,4 +39,19 @@ META.update({
                 note="The reference is the real lexer run in the recovery mode on the node's own range (in-package harness); one known finding (unclosed comment at the recovery point) is listed in KNOWN_FINDINGS.txt."),
 })
 
+META.update({
+    "C02": dict(design_ref="DESIGN.md 5/C02", technique=TECH,
+                text="Bounded model checking: on every accepted path the significant-token sequence (real lexer) of SQL() equals that of the input after removing exactly the documented canonicalisations; inputs come from short byte strings, vocabulary slots and grammar-directed sentence families written from the documentation (not from SQL()).",
+                note="The expected sequence is the lexer's token stream of the input itself; CREATE TABLE bodies are compared as multisets (documented regrouping). Two known findings (HASH/LOOKUP JOIN method dropped) are pinned by a golden file and listed in KNOWN_FINDINGS.txt."),
+    "C06": dict(design_ref="DESIGN.md 5/C06", technique=TECH,
+                text="Bounded model checking: for every node of every accepted family sentence / slot sequence whose own round trip holds, the text input[Pos:End] re-parses with the matching entry point to an equal node (exclusions as the property lists), and splicing SQL() into the range yields an equal tree.",
+                note="Each path runs 2 extra parses per node; quick uses families with one deviation from the default sentence."),
+    "C08": dict(design_ref="DESIGN.md 5/C08", technique=TECH,
+                text="Bounded model checking over grammar-directed sentence families written from the Spanner documentation: every generated sentence is accepted by the specific entry point and by ParseStatement with equal trees and the expected statement type, and twice in a ';' list with and without trailing ';'.",
+                note="Clause bits, alternatives and list lengths are solver-enumerated choices; forms the pinned tree systematically does not implement (TVF alias, hint inside EXISTS(...), 't()' in change streams) are left out of the families and listed in DESIGN.md; three known findings are listed in KNOWN_FINDINGS.txt."),
+    "C16": dict(design_ref="DESIGN.md 5/C16", technique=TECH,
+                text="Bounded model checking: each family sentence is parsed in its canonical spelling and in a re-spelling (one gap at a solver-chosen token position carrying trivia, or one keyword occurrence re-cased incl. symbolic per-letter case); the re-spelling must be accepted with a structurally equal tree.",
+                note="Date parts (DAY ...) are identifiers in memefish's AST and are not re-cased."),
+})
+
 NOT_APPLICABLE = {}
